@@ -94,6 +94,7 @@ RULE = ("seeded sampling over family x method configuration x parameter mode x r
         "places; linear systems with inaccurate forward and tight backward; a repeated or a single requested time); non-trivial = non-zero cotangent, >= 1 leaf with a non-zero "
         "reference gradient, the right-hand side was evaluated during the backward pass (spy count) and the gradients were compared "
         "leaf by leaf")
+RULE += ('; extra kind abort_reuse: right-hand side raising at a seeded evaluation of forward / backward, the object reused afterwards')
 MIN_NONTRIVIAL = {"quick": 500, "thorough": 5000}
 ASSUMPTIONS = [
     "float64 only; state size <= 6, <= 9 requested times for adaptive methods, time span 0.3..1.5, |t0| <= 1, strictly monotone grids "
